@@ -146,6 +146,10 @@ def make_idgen(xtuml, kind, seed):
         return SkippingGen(), refstore.RefSequenceGen(lambda k: seq[k])
     if kind == 'iter':
         return itertools.count(500, 3), refstore.RefSequenceGen(lambda k: 500 + 3 * k)
+    if xtuml is not _FakeXtuml and not seams.uuid_through_seam(xtuml):
+        # opaque mode: the library does not draw from the owned uuid4; ids are judged as the library hands them out
+        g, tape = seams.tape_generator(xtuml)
+        return g, refstore.RefSequenceGen(tape.get)
     if kind == 'uuid_default':
         return None, refstore.RefSequenceGen(lambda k: seams.entropy_value(seed, k))
     return xtuml.UUIDGenerator(), refstore.RefSequenceGen(lambda k: seams.entropy_value(seed, k))
@@ -209,7 +213,7 @@ PROFILES = {
     'C16': dict(new_n=5, relate_n=10, unrelate_n=3, delete=1.2, sort=8, sort_partial=2, relate_overflow=1.5,
                 new=1, relate=1),
     'C19': dict(new=4, new_args=9, new_kw=4, new_bad=1, idgen=5, relate=2, delete=1, setattr=1, select=1, swap_idgen=0.6,
-                add_attr=0.8, swap_attr=0.5, grow=0.2),
+                add_attr=0.8, swap_attr=0.5, grow=0.2, reseed=0.8),
 }
 
 
@@ -873,6 +877,9 @@ class Gen(object):
             uniques.append({'kind': kb, 'name': 'I1', 'attrs': ['Id']})
         return {'op': 'grow', 'classes': classes, 'assoc': assoc, 'uniques': uniques}
 
+    def op_reseed(self):
+        return {'op': 'reseed', 'k': self.rng.choice([0, 1, 1, 42])}
+
     def op_swap_idgen(self):
         '''the id generator is a public attribute of the metamodel: replace it in mid-history'''
         self.nswap = getattr(self, 'nswap', 0) + 1
@@ -995,6 +1002,8 @@ class Gen(object):
                 op = self.op_add_attr()
             elif k == 'swap_attr':
                 op = self.op_swap_attr()
+            elif k == 'reseed':
+                op = self.op_reseed()
             elif k == 'grow':
                 op = self.op_grow()
                 if op:
@@ -1276,6 +1285,8 @@ def apply_ref(ref, op, gen_time=False, world=None):
     if k == 'swap_idgen':
         _, ref.idgen = make_idgen(_FakeXtuml, op['kind'], 0)
         return ('swap', None)
+    if k == 'reseed':
+        return ('swap', None)
     if k == 'grow':
         import copy as _copy
         for c in op['classes']:
@@ -1542,6 +1553,9 @@ class Exec(object):
         guard.arm(self.cfg.get('wall_s', self.e.WALL_S))
         violation = None
         lines = 0
+        import random as _random
+        prng_state = _random.getstate()
+        seams.LAST_TAPE[0] = None
         try:
             self.w = World(self.x, self.cfg, case['seed'])
             self.ref = RefStore(self.w.schema, self.w.ref_gen)
@@ -1575,6 +1589,9 @@ class Exec(object):
             guard.disarm()
             lines = self.e.meter.total
             self.e.meter.total = 0
+            _random.setstate(prng_state)
+        if seams.LAST_TAPE[0] is not None:
+            self.bump(self.probes, 'uuid_entropy_not_through_seam')
         if violation:
             self.log.event('violation', violation['oracle'], self.step)
         return {'violation': violation, 'digest': self.log.hexdigest(), 'steps': self.step + 1,
@@ -1865,8 +1882,16 @@ class Exec(object):
                     mc.insert_attribute(op['index'], op['name'], op['type'])
             self.bump(self.probes, 'attribute_swapped')
             return None
+        if k == 'reseed':
+            # environment event: the application (or a test harness, or another library) re-seeds the global PRNG
+            import random as _random
+            _random.seed(op['k'])
+            self.bump(self.faults, 'F8_global_prng_reseeded')
+            return None
         if k == 'swap_idgen':
-            g, _ = make_idgen(x, op['kind'], 0)
+            g, rg = make_idgen(x, op['kind'], 0)
+            if op['kind'] not in ('integer', 'user', 'user_next', 'iter') and not seams.uuid_through_seam(x):
+                self.ref.idgen = rg
             m.id_generator = g
             w.gen = g
             self.extra['has_peek'] = callable(getattr(g, 'peek', None))
@@ -2027,6 +2052,9 @@ class Exec(object):
                 raise Violation('new', 'step %d %r: attribute %s reads %r, expected %r (%s)'
                                 % (self.step, op, name, got, want, src),
                                 'new:%s' % ('id' if name in defaulted else 'value'))
+        tape = seams.LAST_TAPE[0]
+        if tape is not None and tape.bad:
+            raise Violation('new', 'step %d: %s' % (self.step, tape.bad), 'new:id-entropy')
         if defaulted:
             self.bump(self.probes, 'defaulted_ids', len(defaulted))
             for name, v in defaulted.items():
